@@ -350,9 +350,18 @@ func report(eng *Engine, cfg *PropConfig, tier string, seed int, verif, repo str
 	fmt.Printf("govc %s tier=%s: %d functions under contract, %d obligations, %d discharged (%v), %d covers (%d ok), bounded=%d, load %.1fs gen %.1fs solve %.1fs (solver cpu %.1fs), wall %.1fs\n",
 		cfg.ID, tier, len(funcs), nObl, nDis, bySolver, nCover, nCoverOK, nBounded, loadS, genS, solveS, float64(solverMs)/1000, wallS)
 	if !noEvidence {
-		var samples []interface{}
-		for i, o := range obls {
-			if i%((len(obls)/4)+1) == 0 && !o.Cover {
+		samples := []interface{}{}
+		var proofObls []*Obligation
+		for _, o := range obls {
+			if !o.Cover {
+				proofObls = append(proofObls, o)
+			}
+		}
+		if len(proofObls) == 0 {
+			proofObls = obls
+		}
+		for i, o := range proofObls {
+			if i%((len(proofObls)/4)+1) == 0 {
 				samples = append(samples, map[string]interface{}{"name": o.Name, "note": o.Note, "goal_smt": truncate(o.Goal, 600), "result": o.Status, "solver": o.Solver})
 			}
 		}
